@@ -76,7 +76,8 @@ class C06(Property):
             "a module, LexerError or ParseError.  evaluations = loads.  "
             "A load is non-trivial when a fault fired before END after at "
             "least one complete statement; distinct_nontrivial = distinct "
-            "event-log digests of runs containing such loads.")
+            "event-log digests of runs containing such loads."
+            " Also generated: pvl.new.loads as a sixth configuration (10%), the caller's container classes or the decoders' real_cls/quantity_cls options (10%), bytes cut inside multi-byte characters, flat collections of 1200-2500 items (1%), an odd character as the very last character, empty delimited things and template-like tokens in the alphabet.")
     ASSUMPTIONS = [
         "ordinary nesting depth: generated labels nest blocks <=3 and "
         "collections <=2 deep; RecursionError is not provoked deliberately",
